@@ -36,6 +36,7 @@ type Obligation struct {
 }
 
 type Unit struct {
+	opaquePtrs  map[string]bool // interior pointers turned into opaque values (see ptrTerm)
 	eng         *Engine
 	fn          *ssa.Function
 	key         string
@@ -395,6 +396,7 @@ func (st *State) enterBlock() bool {
 		if ls != nil {
 			for _, c := range ls.Invariants {
 				env := st.newEnv(fr, nil)
+				env.lentry = le.entry
 				t := env.evalBool(c.E)
 				st.assumeAll(env.defs)
 				st.u.addObl(st, "loop-step", pfx+"/"+clauseName(c), fr.block.Instrs[0].Pos(), t, false)
@@ -417,6 +419,7 @@ func (st *State) enterBlock() bool {
 				}
 				env := st.newEnv(fr, nil)
 				env.prev = le.head
+				env.lentry = le.entry
 				t := env.evalBool(c.E)
 				st.assumeAll(env.defs)
 				st.u.addObl(st, "loop-step", pfx+"/step:"+clauseName(c), fr.block.Instrs[0].Pos(), t, false)
@@ -441,10 +444,11 @@ func (st *State) enterBlock() bool {
 	}
 	preLoop := st.clone()
 	ws := st.havocLoop(li)
-	le := &loopEntry{}
+	le := &loopEntry{entry: preLoop}
 	if ls != nil {
 		for _, c := range ls.Invariants {
 			env := st.newEnv(fr, nil)
+			env.lentry = preLoop
 			t := env.evalBool(c.E)
 			st.assumeAll(env.defs)
 			st.assume(t)
